@@ -30,6 +30,20 @@ for mf in sorted(glob.glob('/verif/seeded/*/meta.json')):
     asf = m.get('checks_as_found') or m.get('quick_checks_run_against_it') or []
     now = matrix.get(name) or m.get('checks_after_strengthening')
     rows.append(f"| seeded/{name} | {m['property_broken']} | {m['needs_to_manifest']} | {fmt(asf) or m.get('as_found_note','not run')} | {fmt(now) if now else 'unchanged'} |")
+# scoreboard
+tot = caught_found = missed_found = notrun = now_caught = 0
+for mf in sorted(glob.glob('/verif/seeded/*/meta.json')):
+    m = json.load(open(mf)); name = os.path.basename(os.path.dirname(mf)); prop = m['property_broken']
+    tot += 1
+    asf = m.get('checks_as_found') or m.get('quick_checks_run_against_it') or []
+    own = [c for c in asf if c['check'] == prop]
+    if not own: notrun += 1
+    elif any(c['exit'] == 1 for c in own): caught_found += 1
+    else: missed_found += 1
+    now = matrix.get(name) or m.get('checks_after_strengthening') or asf
+    if any(c['check'] == prop and c['exit'] == 1 for c in now): now_caught += 1
+rows.append('')
+rows.append(f"Scoreboard: {tot} seeded changes; with the checks as they were when each arrived, the check of the targeted property caught {caught_found}, missed {missed_found}, and {notrun} were only run after the miss had been understood and the check strengthened (by inspection misses, noted in the table); with the checks as committed, the targeted property's check catches {now_caught} of {tot}.")
 put('seeded-table', '\n'.join(rows))
 open('/verif/DESIGN.md', 'w').write(d)
 print('tables filled')
